@@ -88,6 +88,31 @@ PROPS.update({
     },
 })
 
+PROPS.update({
+    "C14": {
+        "title": "Host names convert between text and wire form without loss",
+        "units": ["U4", "U2"],
+        "cone": {"U4": None, "U2": [r"Compress::raw_name_to_str$", r"TypedIterable::name$", r"spec/(names|locality)\.rs"]},
+        "witness": ("c14", 20000),
+        "level": "proof", "design_ref": "DESIGN.md section 5 C14",
+        "assumptions": ["bytes above 128 are rejected, 128 itself is accepted (as the code does): the property statement is silent on non-ASCII bytes",
+                        "<[u8]>::make_ascii_lowercase maps A-Z to a-z and nothing else (assumed specification)"],
+        "level_text": "copy_raw_name_from_str is proved equal to the spec function name_to_wire (labels = dot-separated labels, default zone unless a final dot) with acceptance iff wire <= 253; the C14 clauses (well-formed pointer-free result, LDH acceptance, the three rejections, text round trip) are proved lemmas over that spec function; reading back goes through raw_name_to_str / name() of unit U2, proved equal to the lower-cased text of the expansion",
+        "technique": "Verus functional contract against a recursive spec function + spec-level lemmas for each clause of the statement",
+    },
+    "C13": {
+        "title": "Record text synthesises to the right wire record; bad text is an error",
+        "units": ["U5"],
+        "cone": None,
+        "witness": ("c13", 20000),
+        "level": "proof", "design_ref": "DESIGN.md section 5 C13",
+        "assumptions": ["the text grammar (synth/parser.rs, chomp parse! macros over an external Input trait) is outside the verifier's reach: which strings are accepted and 'no string panics' are NOT decided by contracts; they are exercised only by the auxiliary differential replay of RR::from_string against a reference written from the grammar",
+                        "two live Vec allocations fit in the address space together (axiom_two_vecs, used for the capacity hint of SOA::build)"],
+        "level_text": "every typed builder (RR::new, new_question, A, AAAA, NS, CNAME, PTR, TXT, MX, SOA, DS) is proved to return exactly rr_wire(fields) -- owner name, type, class, TTL, RDLENGTH, RDATA per RFC 1035 -- and to fail exactly when a name does not encode or the data is too long; proof level covers the builders only",
+        "technique": "Verus byte-exact postconditions on the extracted builders (unit U5); grammar clauses: differential replay only (stated)",
+    },
+})
+
 NOT_APPLICABLE = {
     "C15": "C ABI facade: unsafe extern \"C\" wrappers over raw pointers driven through callbacks, plus parity with a C header; "
            "neither Verus (no model of these raw-pointer casts/CStr) nor Kani (no callbacks-as-scripts, every fallible wrapper reaches anyhow) "
